@@ -376,4 +376,4 @@ def stateful_edges(body, so_name="start_offset"):
 
 
 def guarded(body, bb, edges):
-    return any(body.edge_guards(e, bb) for e in edges)
+    return any(body.edge_guards(e, bb) for e in edges) or body.edges_guard(edges, bb)
